@@ -482,7 +482,11 @@ def stage_binding(cx):
                     order = [k for k, _ in e.hosts() if k in e.paths_at]
                     second = h2 if order.index(h2) > order.index(h) else h
                     cases.append(("duplicate-prefix", e, ("reject", "has already been defined earlier", ("path", second))))
-            for body, needle in (("[1]", None), ("1", None), ('{\n  "%s": {"k": 1}\n}' % names[0], None), ("{}", None)):
+            for body, needle in (("[1]", None), ("1", None), ('{\n  "%s": {"k": 1}\n}' % names[0], None), ("{}", None),
+                                 # structured VALUES under a rule that gives them another type name: the value is still not flat
+                                 ('{\n  "%s": {} // {type: "any"}\n}' % names[0], None), ('{\n  "%s": [] // {type: "any"}\n}' % names[0], None),
+                                 ('{\n  "%s": {}\n}' % names[0], None), ('{\n  "%s": [1, 2]\n}' % names[0], None),
+                                 ('{\n  "%s": [] // {optional: true}\n}' % names[0], None)):
                 e = BDoc(d.layout)
                 e.paths_at = {k: list(v) for k, v in d.paths_at.items()}
                 e.body_override[h] = body
